@@ -28,7 +28,9 @@ RULE = ("programs of 2..7 statements over: leaf commands (notes c d e f g a b wi
         "(initialisers, PRINT arguments, conditions, arguments of other calls) with omitted trailing and empty arguments, RETURN(value) from "
         "inside nested loops, RETURN without a value, Result = value, locals and parameters that shadow globals, assignment to a global name "
         "inside a function, functions whose parameters carry the NAMES of the caller's variables, called with those variables swapped / shifted / "
-        "used twice / inside nested calls F(G(B),A) as statements and inside expressions; fixed families: recursion (factorial, Fibonacci, a countdown that plays notes) of depth <= 8, loops that never end "
+        "used twice / inside nested calls F(G(B),A) as statements and inside expressions, functions that yield a value only on some paths "
+        "(RETURN under a condition) or never, called inside expressions from functions that have already assigned their own Result, next to a "
+        "GLOBAL named Result, and as arguments F(G(x)) (an argument without a value takes the default); fixed families: recursion (factorial, Fibonacci, a countdown that plays notes) of depth <= 8, loops that never end "
         "(WHILE(1) and FOR(;1;) with X++ / CONTINUE / guarded RETURN bodies) cut at 10000; layout: blanks / line breaks / ';' between "
         "statements, line breaks inside blocks, ELSE on the same or the next line; plus a damaged stream for the correspondence only "
         "(loop-free programs with one character deleted / doubled / inserted or a span removed).  non-trivial = distinct source whose expansion has >= 2 "
@@ -40,6 +42,8 @@ ASSUMES = ["every value stays below 2^31 - 1 in magnitude (the expansion writes 
            "variables are declared or assigned before they are read; names do not collide with commands (Xa, Ia, Fa, Pa, ...)",
            "function bodies read only their own parameters / locals and globals that no caller shadows (the code looks names up through "
            "the callers' scopes - dynamic scoping; the property does not say which scoping applies, so the generator stays where both agree)",
+           "a call that yields no value is used in arithmetic (counts as 0), as an argument (takes the default) or printed (empty), not as an "
+           "operand of a comparison (svalue.rs compares 'no value' specially; the property does not say)",
            "BREAK / CONTINUE only inside loops of the same function body; a leaf after an expression is separated so that it cannot be "
            "absorbed as an operand (an expression argument not closed by ')' or ';' continues over blanks: the proviso of C18)",
            "at most about 300 executed leaves per case; loops that hit the limit have bodies without notes"]
@@ -124,7 +128,12 @@ class Interp:
     def cond(self, c, fr):
         k = c[0]
         if k == "cmp":
-            a, b = self.num(self.eval(c[2], fr)), self.num(self.eval(c[3], fr))
+            ra, rb = self.eval(c[2], fr), self.eval(c[3], fr)
+            if ra is None or rb is None:
+                # "no value" is 0 in arithmetic, but comparisons treat it specially (ordering is false, == needs both empty);
+                # the property does not say, the generator stays away
+                raise Skip("comparison with no value")
+            a, b = ra, rb
             o = c[1]
             return {"==": a == b, "=": a == b, "!=": a != b, "<>": a != b, "<": a < b, "<=": a <= b, ">": a > b, ">=": a >= b}[o]
         if k == "and":
@@ -342,7 +351,8 @@ class Gen:
             if vars_ and rng.random() < 0.6:
                 return ("var", rng.choice(vars_))
             return self.lit()
-        vfs = [n for n, (k, kind) in self.sigs.items() if kind == "value"]
+        # functions that always yield a value, that yield one only on some paths, and (less often) that never do
+        vfs = [n for n, (k, kind) in self.sigs.items() if kind in ("value", "maybe") or (kind == "proc" and rng.random() < 0.3)]
         if calls and vfs and r < 0.5:
             n = rng.choice(vfs)
             return ("call", n, self.args(n, vars_, depth - 1, in_expr=True))
@@ -371,7 +381,7 @@ class Gen:
                     e = ("bin", rng.choice(["+", "-"]), ("var", rng.choice(other)), ("var", rng.choice(cand)))
                 else:
                     e = self.expr(vars_, depth, calls=False)
-                inner = [f for f in self.gp if self.sigs[f][1] == "value" and f != name]
+                inner = [f for f in self.gp if self.sigs[f][1] in ("value", "maybe") and f != name]
                 if inner and depth >= 0 and rng.random() < 0.25:
                     f = rng.choice(inner)
                     e = ("call", f, [("var", rng.choice(cand)) if cand else self.lit() for _ in range(self.sigs[f][0])])
@@ -482,7 +492,7 @@ def gen_program(rng, depth):
     names = FUNCS[:nf]
     sigs, funcs, gps = {}, [], {}
     for idx, name in enumerate(names):
-        kind = rng.choice(["value", "value", "proc"])
+        kind = rng.choice(["value", "value", "proc", "maybe"])
         if rng.random() < 0.4:
             # parameters named like the caller's variables; the body reads only its own parameters and locals and calls only
             # functions of the same kind (so that dynamic and lexical scoping agree)
@@ -490,8 +500,10 @@ def gen_program(rng, depth):
             params = [(x, rng.choice([None, None, 3, -2]) if j > 0 else None) for j, x in enumerate(pn)]
             g = Gen(rng, {f: sigs[f] for f in gps}, dict(gps))
             locs = ["L%s%d" % (name[1], j) for j in range(2)]
-            body = g.block(list(pn), min(depth, 2), rng.randrange(1, 5), False, kind, locs + list(pn))
+            body = g.block(list(pn), min(depth, 2), rng.randrange(1, 5), False, "value" if kind == "maybe" else kind, locs + list(pn))
             body.insert(0, ("print", [("var", x) for x in pn]))
+            if kind == "maybe":
+                body.append(("if", g.cond(list(pn)), [("return", g.expr(list(pn), 1, calls=False))], None))
             if kind == "value":
                 e = ("var", pn[0])
                 for j, x in enumerate(pn[1:]):
@@ -511,11 +523,26 @@ def gen_program(rng, depth):
         shadow = rng.random() < 0.25
         if shadow:
             locs.append(rng.choice(GLOBALS))     # a local (declared or just assigned) with the name of a global
-        body = g.block(local_names + [x for x in GLOBALS[:2] if not shadow], min(depth, 2), rng.randrange(1, 5), False, kind, locs + local_names)
+        body = g.block(local_names + [x for x in GLOBALS[:2] if not shadow], min(depth, 2), rng.randrange(1, 5), False,
+                       "value" if kind == "maybe" else kind, locs + local_names)
         if shadow and g.sigs:
             # a function with a shadowing local must not call others (they would see it: dynamic scoping)
             body = strip_calls(body)
-        if kind == "value":
+        if kind == "maybe":
+            # a value only on some paths: RETURN under a condition, nothing otherwise
+            body.append(("if", g.cond(local_names or ["Xa"] if not shadow else local_names), [("return", g.expr(local_names, 1, calls=False))], None)
+                        if (local_names or not shadow) else ("if", ("truth", ("lit", 0)), [("return", ("lit", 1))], None))
+        callees = [n for n in g.sigs] if not shadow else []
+        if kind == "value" and callees and rng.random() < 0.35:
+            # the caller has ALREADY assigned its own Result when it uses a call that may yield nothing
+            nme = rng.choice(callees)
+            call = ("call", nme, g.args(nme, local_names + ([] if shadow else GLOBALS[:2]), 1, in_expr=True))
+            body.append(("assign", "Result", g.expr(local_names, 1, calls=False)))
+            if rng.random() < 0.5:
+                body.append(("assign", "Result", ("bin", "+", ("var", "Result"), call)))
+            else:
+                body.append(("return", ("bin", rng.choice(["+", "-"]), ("bin", "*", ("var", "Result"), ("lit", 2)), call)))
+        elif kind == "value":
             if rng.random() < 0.25:
                 body.append(("assign", "Result", g.expr(local_names, 2, calls=not shadow)))
             else:
@@ -524,6 +551,8 @@ def gen_program(rng, depth):
         sigs[name] = (np_, kind)
     g = Gen(rng, sigs, gps)
     main = [("decl", GLOBALS[0], ("lit", rng.choice([0, 1, 5]))), ("decl", GLOBALS[1], ("lit", rng.choice([2, 3, -4])))]
+    if rng.random() < 0.3:
+        main.append(("decl", "Result", ("lit", rng.choice([5, 9, -7]))))      # a GLOBAL named Result: no call may yield it
     main += g.block(GLOBALS[:2], depth, rng.randrange(2, 8), False, None, GLOBALS)
     main.append(("print", [("var", GLOBALS[0]), ("var", GLOBALS[1])]))
     return {"funcs": funcs, "main": main}
@@ -614,6 +643,13 @@ def families(rng):
         ("INT A=1; INT B=2; FUNCTION SUBT(INT A, INT B){ RETURN(A*10+B) }; PRINT(SUBT(B, A))", [("print", [21])]),
         ("INT A=1 INT B=2 INT C=3 FUNCTION F(A,B,C){ RETURN(A*100+B*10+C) } FUNCTION G(B){ RETURN(B+5) } PRINT(F(C,A,B),F(B,B,A),F(G(B),A,G(A)))",
          [("print", [312, 221, 716])]),
+        ("Function Beep(N){ IF(N>0){ RETURN(N) } } Function Total(){ Result=100; Result=Result+Beep(0); } PRINT(Total())", [("print", [100])]),
+        ("Int Result=5; Function Proc(){ c } PRINT(1+Proc())", [("leaf", "c"), ("print", [1])]),
+        ("Int Result=5; Function Proc(){ c } Function Twice(A=3){ RETURN(A*2) } PRINT(Twice(Proc()),Proc()) PRINT(Result)",
+         [("leaf", "c"), ("leaf", "c"), ("print", [6, None]), ("print", [5])]),
+        ("Function Skip(N){ IF(N>100){ RETURN(N) } } Function Sum(N){ Result=N; IF(N>0){ Result=Result+Skip(N)+Sum(N-1) } } PRINT(Sum(3),Sum(0))",
+         [("print", [6, 0])]),
+        ("Function Down(N){ IF(N>1){ RETURN(N+Down(N-1)) } } Int Result=50 PRINT(Down(3),Down(1)) PRINT(Result)", [("print", [5, None]), ("print", [50])]),
         ("INT X=1 FUNCTION F(){ X=5 PRINT(X) } F() PRINT(X)", [("print", [5]), ("print", [1])]),
         ("INT X=1 FUNCTION F(){ INT X=8 X++ PRINT(X) } F() PRINT(X)", [("print", [9]), ("print", [1])]),
         ("INT X=1 FUNCTION F(X){ X=X+1 RETURN(X) } PRINT(F(10),X)", [("print", [11, 1])]),
